@@ -3,11 +3,13 @@
 package main
 
 import (
+	"bytes"
 	"crypto/sha256"
 	"encoding/hex"
 	"fmt"
 	"math/rand"
 	"net"
+	"sort"
 	"strconv"
 	"strings"
 	"time"
@@ -53,11 +55,37 @@ func runGossip(o *Out, r *rand.Rand, thorough bool, _ []string) {
 		count := []int{0, 3, 20, 62, 140, 272}[(round*2+r.Intn(2))%6]
 		known := fillTable(nd, r, count, false)
 		stranger := signRecPad(keyFromSeed(r), net.IP{34, 99, 2, 2}, 4000, 1, 0)
+		var knownIDs []enode.ID
+		for id := range known {
+			knownIDs = append(knownIDs, id)
+		}
+		sort.Slice(knownIDs, func(i, j int) bool { return bytes.Compare(knownIDs[i][:], knownIDs[j][:]) < 0 })
+		// content ids are scripted per key (the sub-network's key-to-id function is a parameter of the protocol)
+		cidOf := map[string][]byte{}
+		nd.p.VerifSetToContentId(func(k []byte) []byte {
+			if c, ok := cidOf[string(k)]; ok {
+				return c
+			}
+			h := sha256.Sum256(k)
+			return h[:]
+		})
 		for c := 0; c < perRound; c++ {
 			key := make([]byte, 8+r.Intn(20))
 			r.Read(key)
 			idh := sha256.Sum256(key)
 			cid := idh[:]
+			if len(knownIDs) > 0 && r.Intn(5) == 0 {
+				// the content id at the largest distance there is from one table node (its bitwise complement), or next to it
+				nid := knownIDs[r.Intn(len(knownIDs))]
+				cid = make([]byte, 32)
+				for i := range cid {
+					cid[i] = ^nid[i]
+				}
+				if r.Intn(3) == 0 {
+					cid[31] ^= 1
+				}
+				cidOf[string(key)] = cid
+			}
 			before := viewTable(nd, known)
 			closest := nd.p.VerifFindNodesCloseToContent(cid, 32)
 			density := r.Intn(5) // 0: nobody knows a radius .. 4: everybody covers
@@ -68,14 +96,26 @@ func runGossip(o *Out, r *rand.Rand, thorough bool, _ []string) {
 				if r.Intn(4) < density {
 					knownR = true
 					var rad *uint256.Int
-					if r.Intn(4) < density {
+					// the distance, computed here (not by the code under test): XOR of the two ids as a big-endian number
+					nid := n2.ID()
+					xb := make([]byte, 32)
+					for i := range xb {
+						xb[i] = nid[i] ^ cid[i]
+					}
+					dist := new(uint256.Int).SetBytes(xb)
+					switch k := r.Intn(8); {
+					case k == 0:
+						rad = dist.Clone() // exactly the distance: not covered
+					case k == 1 && !dist.Eq(new(uint256.Int).SetAllOne()):
+						rad = new(uint256.Int).AddUint64(dist, 1) // just above: covered
+					case r.Intn(4) < density:
 						rad = new(uint256.Int).SetAllOne()
-					} else {
+					default:
 						rad = uint256.NewInt(uint64(r.Intn(1000)))
 					}
 					rb, _ := rad.MarshalSSZ()
 					nd.p.VerifRadiusCacheSet(n2.ID(), rb)
-					covers = portalwire.VerifInRange(n2.ID(), rad, cid)
+					covers = dist.Lt(rad)
 				}
 				desc = append(desc, fmt.Sprintf("%d:%d:%d:%d", before.index[n2.ID()], enode.LogDist(n2.ID(), enode.ID(cid)), b2i(knownR), b2i(covers)))
 			}
